@@ -110,6 +110,8 @@ def case_schedule(col, p):
     kind, W, J = p['cache'], p['W'], p['J']
     fail_idx = tuple(p.get('fail', ()))
     die_idx = tuple(p.get('die', ()))
+    split = p.get('split')           # (split_jobs, this_job_id): the part of the cache built by this job
+    additional = tuple(p.get('additional', ()))
     njobs = J if kind == '1d' else J * J
     fatal = None
     if die_idx:
@@ -124,14 +126,14 @@ def case_schedule(col, p):
     ref_counter = Counter()
     ref = None
     if not fail_idx:
-        ref = build_cache(kind, 1, J, ref_counter)(1)
+        ref = build_cache(kind, 1, J, ref_counter, additional=additional, **({'split_jobs': split[0], 'this_job_id': split[1]} if split else {}))(1)
     outcomes = set()
     info = dict(p)
 
     def body():
         counter.calls = []
         with quiet():
-            return build_cache(kind, W, J, counter, fail_idx)()
+            return build_cache(kind, W, J, counter, fail_idx, additional=additional, **({'split_jobs': split[0], 'this_job_id': split[1]} if split else {}))()
 
     def check(outcome, sc, choices):
         status, val = outcome
@@ -163,6 +165,18 @@ def case_schedule(col, p):
             col.violation('C17:Cache%s:_multiple_processes:raises' % kind.upper(), dict(info, schedule=choices), '%s: %s' % (type(val).__name__, str(val)[:200]))
             return
         outcomes.add('ok')
+        if split or additional:
+            # a part of a split cache: same jobs filled (same holes) with the same spectra as the part built by one process
+            A_, B_ = np.asarray(val.spectra, dtype=object), np.asarray(ref.spectra, dtype=object)
+            same = A_.shape == B_.shape
+            if same:
+                for x_, y_ in zip(A_.reshape(-1) if A_.ndim <= 2 else A_.reshape(A_.shape[0] * A_.shape[1], -1), B_.reshape(-1) if B_.ndim <= 2 else B_.reshape(B_.shape[0] * B_.shape[1], -1)):
+                    if (x_ is None) != (y_ is None) or (x_ is not None and not np.array_equal(np.asarray(x_, dtype=float), np.asarray(y_, dtype=float))):
+                        same = False
+                        break
+            if not same:
+                col.violation('C17:Cache%s:schedule_dependent_cache' % kind.upper(), dict(info, schedule=choices), 'split-job part differs from the part built by one process')
+            return
         if not spectra_equal(val.spectra, ref.spectra) or not spectra_equal(val.neu_spec if kind == '1d' else 0, ref.neu_spec if kind == '1d' else 0):
             col.violation('C17:Cache%s:schedule_dependent_cache' % kind.upper(), dict(info, schedule=choices), 'cache differs from the single-process cache')
         # every job computed exactly once (+1 neutral evaluation in 1-D)
@@ -180,7 +194,7 @@ def case_schedule(col, p):
     if st['capped']:
         col.tick(schedule_caps_hit=1)
     col.distinct('outcomes_' + '_'.join(map(str, (kind, W, J, mode))), tuple(sorted(outcomes)))
-    col.distinct('nontrivial', ('schedule', kind, W, J, fail_idx, die_idx, mode, p.get('bound')))
+    col.distinct('nontrivial', ('schedule', kind, W, J, fail_idx, die_idx, mode, p.get('bound'), tuple(split or ()), additional))
     col.observe('executions_%s_W%d_J%d_%s' % (kind, W, J, mode), st['executions'])
 
 
@@ -263,17 +277,25 @@ def case_merge(col, p):
         for victim in range(split):
             bad = copy.deepcopy(parts[victim])
             job = [jb for jb, k in sorted(owner.items()) if k == victim][0]
-            bad.spectra[job[0]][job[1]] = bad.spectra[job[0]][job[1]] * 1.5
+            orig = bad.spectra[job[0]][job[1]]
+            # gross and slight disagreements (a regenerated job differing in the 7th digit, or only in an entry far below the others)
+            alterations = {'x1.5': orig * 1.5, 'rel1e-7': orig * (1.0 + 1e-7), 'one_entry_abs1e-12': None}
+            tiny = orig.copy()
+            tiny.flat[1] = tiny.flat[1] + 1e-12
+            alterations['one_entry_abs1e-12'] = tiny
             base = [copy.deepcopy(c) for c in parts]
-            for pos in range(len(base) + 1):
-                caches = base[:pos] + [bad] + base[pos:]
-                try:
-                    DFE.Cache2D.merge([copy.deepcopy(c) for c in caches])
-                    col.violation('C17:Cache2D:merge:conflict_absorbed', dict(p, victim=victim, position=pos), 'a cache whose job %s differs was merged silently' % (job,))
-                except ValueError:
-                    pass
-                col.tick(transitions=1)
-                n += 1
+            for aname, altered in alterations.items():
+                bad.spectra[job[0]][job[1]] = altered
+                for pos in range(len(base) + 1):
+                    caches = base[:pos] + [bad] + base[pos:]
+                    try:
+                        DFE.Cache2D.merge([copy.deepcopy(c) for c in caches])
+                        col.violation('C17:Cache2D:merge:conflict_absorbed', dict(p, victim=victim, position=pos, alteration=aname),
+                                      'a cache whose job %s differs (%s) was merged silently' % (job, aname))
+                    except ValueError:
+                        pass
+                    col.tick(transitions=1)
+                    n += 1
     col.tick(states=n, traces=n)
     col.distinct('nontrivial', ('merge', J, split))
 
@@ -513,14 +535,15 @@ def case_mixture(col, p):
     n = 0
     for p2d, rho, theta in itertools.product((0.0, 0.3, 1.0), (0.0, 0.6), (1.0, 2.0)):
         params = [1.0, 0.8, rho, p2d]
-        got = DFE.mixture(params, None, s1, s2, PDFs.lognormal, PDFs.biv_lognormal, theta, None)
-        a = s1.integrate(params[:2], None, PDFs.lognormal, theta, None)
-        b = s2.integrate(params[:3], None, PDFs.biv_lognormal, theta, None)
-        col.tick(transitions=3)
-        n += 1
-        ex = (1 - p2d) * np.asarray(a.data) + p2d * np.asarray(b.data)
-        if not np.allclose(np.asarray(got.data), ex, rtol=1e-12, equal_nan=True):
-            col.violation('C17:mixture:weights', dict(p, p2d=p2d, rho=rho, theta=theta), '')
+        for ext in (True, False):
+            got = DFE.mixture(params, None, s1, s2, PDFs.lognormal, PDFs.biv_lognormal, theta, None, exterior_int=ext)
+            a = s1.integrate(params[:2], None, PDFs.lognormal, theta, None, exterior_int=ext)
+            b = s2.integrate(params[:3], None, PDFs.biv_lognormal, theta, None, exterior_int=ext)
+            col.tick(transitions=3)
+            n += 1
+            ex = (1 - p2d) * np.asarray(a.data) + p2d * np.asarray(b.data)
+            if not np.allclose(np.asarray(got.data), ex, rtol=1e-12, equal_nan=True):
+                col.violation('C17:mixture:weights', dict(p, p2d=p2d, rho=rho, theta=theta, exterior_int=ext), '')
         for fn_name in ('mixture_symmetric_point_pos', 'mixture_point_pos'):
             import dadi.DFE.Cache2D_mod as C2
             fn = getattr(C2, fn_name)
@@ -671,6 +694,11 @@ def run(ctx):
             cases.append({'kind': 'schedule', 'cache': '1d', 'W': W, 'J': J, 'mode': 'stateful', 'die': [k]})
     for k in range(4):
         cases.append({'kind': 'schedule', 'cache': '2d', 'W': 2, 'J': 2, 'mode': 'stateful', 'die': [k]})
+    # parts of a split 2-D cache (with point-mass gammas) built by a worker pool
+    for sj in (2, 3):
+        for jid in range(sj):
+            cases.append({'kind': 'schedule', 'cache': '2d', 'W': 2, 'J': 2, 'mode': 'stateful', 'split': [sj, jid], 'additional': [4.0]})
+    cases.append({'kind': 'schedule', 'cache': '1d', 'W': 2, 'J': 2, 'mode': 'stateful', 'additional': [4.0, 2.0]})
     cases.append({'kind': 'real', 'cache': '1d', 'W': 3, 'J': 5})
     cases.append({'kind': 'real', 'cache': '2d', 'W': 2, 'J': 3})
     # M
